@@ -117,6 +117,25 @@ def get_project_root(context: BaseLintContext) -> str | None:
     return str(project_root) if project_root is not None else None
 
 
+def _lookup_config_section(metadata: dict[str, Any], config_key: str) -> Any:
+    """Find a linter's section under either spelling of its key.
+
+    Config files are normalized to underscored keys (unwrap_abuse) while
+    programmatic configs may use the hyphenated rule name (unwrap-abuse).
+
+    Args:
+        metadata: Context metadata dictionary
+        config_key: Key as the linter spells it
+
+    Returns:
+        The section found under config_key or its hyphen/underscore variant, else {}
+    """
+    for key in (config_key, config_key.replace("-", "_"), config_key.replace("_", "-")):
+        if key in metadata:
+            return metadata[key]
+    return {}
+
+
 def load_linter_config(
     context: BaseLintContext,
     config_key: str,
@@ -136,7 +155,7 @@ def load_linter_config(
         config = load_linter_config(context, "srp", SRPConfig)
     """
     metadata = get_metadata(context)
-    config_dict = metadata.get(config_key, {})
+    config_dict = _lookup_config_section(metadata, config_key)
 
     if not isinstance(config_dict, dict):
         return config_class()
